@@ -22,6 +22,41 @@ Theorem C16_weighted_pauli_string_flag_sound :
 Proof. intros K L n p w. split; [reflexivity|apply wmatrix_hermitian]. Qed.
 Print Assumptions C16_weighted_pauli_string_flag_sound.
 
+(** ... and complete: a weighted string with a Hermitian matrix has a self-conjugate
+    phase*weight (in binary64: `.imag == 0` holds exactly when phase*weight is exactly
+    representable as a real number - the proviso in the property text).  The entry
+    (px, 0...0) of a string's matrix is a unit, so the scalar can be read off it. *)
+Theorem C16_weighted_pauli_string_flag_complete :
+  forall (K : Scalar) (L : ScalarLaws K) n p (w : K),
+    wfp n p -> hermitian (K:=K) n (wmatrix (p, w)) ->
+    sconj (smul (mipz (pq p)) w) = smul (mipz (pq p)) w.
+Proof.
+  intros K L n p w [Hz Hx] Hh.
+  pose proof (s_ring K L) as RT.
+  assert (HX : length (px p) = n) by exact Hx.
+  specialize (Hh (px p) (zeros (length (px p))) HX ltac:(rewrite zeros_length; exact HX)).
+  unfold madj, wmatrix in Hh. cbn [fst snd] in Hh. rewrite !pmatrix_kron in Hh.
+  rewrite !(conj_mul K L), letters_mat_herm in Hh. rewrite letters_zx in Hh.
+  assert (U := zx_mat_unit (K:=K) (pz p) (px p) ltac:(congruence)).
+  assert (Ud := mipz_unit (K:=K) (dotz (pz p) (px p))).
+  set (M := zx_mat (pz p) (px p) (px p) (zeros (length (px p)))) in *.
+  set (d := mipz (dotz (pz p) (px p)) : K) in *. set (d' := mipz (- dotz (pz p) (px p)) : K) in *.
+  set (a := mipz (pq p) : K) in *.
+  rewrite (conj_mul K L).
+  assert (E1 : smul (smul (sconj a) (sconj w)) (smul (smul d M) (smul d' M))
+               = smul (smul a w) (smul (smul d M) (smul d' M))).
+  { transitivity (smul (smul (sconj w) (smul (sconj a) (smul d M))) (smul d' M)).
+    - destruct RT. rewrite (Rmul_comm (sconj a) (sconj w)), <- !Rmul_assoc. reflexivity.
+    - rewrite Hh. destruct RT. rewrite (Rmul_comm a w), <- !Rmul_assoc. reflexivity. }
+  assert (E2 : smul (smul d M) (smul d' M) = s1).
+  { transitivity (smul (smul d d') (smul M M)).
+    - destruct RT. rewrite <- !Rmul_assoc. f_equal. rewrite !Rmul_assoc. f_equal. apply Rmul_comm.
+    - rewrite Ud, U. destruct RT. apply Rmul_1_l. }
+  rewrite E2 in E1. destruct RT.
+  rewrite (Rmul_comm _ s1), (Rmul_comm _ s1), !Rmul_1_l in E1. exact E1.
+Qed.
+Print Assumptions C16_weighted_pauli_string_flag_complete.
+
 Theorem C16_pauli_operator_flag_sound :
   forall (K : Scalar) (L : ScalarLaws K) n (op : list (wstr (K:=K))),
     gen_operator_hermitian_is_all_strings = true ->
